@@ -129,6 +129,20 @@ CLAIMED = {
               "arrays, top-layer distribution, EDIT multipliers and SCHEDULE updates are outside the modelled subset."),
         technique="TLA+ reference interpreter run by TLC as oracle; replay of every program into the real EclipseState",
     ),
+    "C14": dict(
+        category="model_checking",
+        text=("PvtMonitor.tla: (1) the table shapes of a model (dead / live oil, dry / wet gas, 2-4 nodes, which composition nodes carry an "
+              "undersaturated branch, 1-2 regions), all generated by TLC; (2) the relations Node, Between, Meet, Invert, Slope over "
+              "integer-scaled values.  Physically ordered random numbers are drawn for every shape in four unit systems; "
+              "harness/pvtmon initialises the Oil / Gas / Water PVT multiplexers from the parsed deck and evaluates them at all "
+              "nodes, interior points of every tabulated line, the saturated line, saturation pressures and with Evaluation "
+              "arguments; TLC validates every event (Trace_PvtMonitor)."),
+        design_ref="DESIGN.md section 5, C14",
+        note=("Trusted: TLC; the event scaling in the harness; UnitSystem for table values.  Extrapolation beyond the tables, PVCDO and "
+              "the thermal / brine / CO2 variants are not checked (the CO2 / H2 tables are absent from this source snapshot; "
+              "harness/co2stub.hpp only satisfies the linker)."),
+        technique="TLC-generated table shapes + TLC trace validation (monitor) of every evaluation of the real PVT classes",
+    ),
     "C16": dict(
         category="model_checking",
         text=("DualNumbers.tla states the differentiation rules over terms (exact rationals, named real functions); TLC "
